@@ -98,6 +98,7 @@ class PathCtx:
         self.next = self.next0
         self.nfresh = 0
         self.counter = 0
+        self.str_defs = {}        # string constant -> defining term (from assumed equalities)
         self.alts = []            # alternative prefixes discovered on this path
         self.trace = []
         self.assume(self.next0 >= 1)
@@ -116,6 +117,14 @@ class PathCtx:
             c = z3.BoolVal(c)
         if z3.is_true(c):
             return
+        if z3.is_eq(c) and c.arg(0).sort() == z3.StringSort():
+            a, b = c.arg(0), c.arg(1)
+            for x, t in ((a, b), (b, a)):
+                if z3.is_const(x) and x.decl().kind() == z3.Z3_OP_UNINTERPRETED \
+                        and not (z3.is_const(t) and t.decl().kind() == z3.Z3_OP_UNINTERPRETED
+                                 and str(t) in self.str_defs):
+                    self.str_defs.setdefault(str(x), t)
+                    break
         self.pc.append(c)
         self.solver.add(c)
 
